@@ -25,7 +25,10 @@ META = {
             "inside the caller, inside a RunnerScope of that executor, before invoke returns 0; caller's scope restored) "
             "and AlwaysUseNewThreadExecutor (c07_newthread_*: one dedicated thread per task, each starts one task, in "
             "scope; join()/destructor returns only on _running == 0 and then every accepted task and everything it "
-            "spawned has finished).  The models read the regenerated source facts: every decision expression of "
+            "spawned has finished).  c07_nested_scopes_restore_running_in (EXScope): for every well-bracketed tree of "
+            "nested RunnerScopes of other executors opened inside a task of executor e the thread reports e again "
+            "afterwards and at every point the current executor is the innermost scope's (regenerated: the constructor "
+            "remembers BasicExecutor::current(), the destructor writes it back).  The models read the regenerated source facts: every decision expression of "
             "executor.cpp, the statement order of stop() (_running cleared, balancer joined, marker loop, worker joins), "
             "of InplaceExecutor::invoke and of AlwaysUseNewThreadExecutor::invoke/join, results of enqueue_task/invoke, "
             "memory orders; changing any of them re-opens a lemma the theorems rest on.  Tie: the real executors "
@@ -252,6 +255,12 @@ def main(argv):
             if kind == "T":
                 ths.append(["J", "X"] if rng.chance(1, 2) else ["X"])
             progs.append(("p%d" % len(progs), kind, "0 0 0 0 0", fmt_bodies(bodies), fmt_threads(ths), False))
+        # nested RunnerScopes: a pool task synchronously uses InplaceExecutor::instance() ("n") and must still report
+        # is_running_in() afterwards; so must every later task on that worker, and children still go to the local queue
+        for params, bodies, ths in (("1 8 2 0 0", "n;-;n.3;-", "s0,s1,s2|J,X"),
+                                    ("2 8 1 1 0", "n.1.n;-;3.n;-", "s0|s2,J,D"),
+                                    ("1 16 2 0 1", "1.n.2;-;n;n.4;-", "s0,s3|J,X")):
+            progs.append(("p%d" % len(progs), "P", params, bodies, ths, False))
         nsched = 14 if not thorough else 60
         scheds = []
         for i in range(nsched):
@@ -346,7 +355,8 @@ def main(argv):
                        "programs: class A = global capacity 1-2 (queue-full blocking of submitters), leaf children that fit "
                        "the local queue, stop()/destructor after the submitters; class B = random task graphs of depth <= 3, "
                        "class C = 3-4 workers with thread ids straddling a 128-id storage block (126 parked padding threads), "
-                       "stealing on, several local children per task; "
+                       "stealing on, several local children per task; three fixed programs whose tasks synchronously call "
+                       "InplaceExecutor::instance() (nested RunnerScope) and must report is_running_in() afterwards; "
                        "local capacity 0-3, stop() racing with submitters and running tasks, wakeup_one_worker; workers 1-3, "
                        "stealing on/off, balance interval unset/1-3us; strategies uniform random, round-robin with random "
                        "pre-emptions, PCT, about a third of the non-PCT schedules with spurious futex_wait returns; distinct non-trivial = distinct (program, observed run order) pairs; small "
